@@ -725,6 +725,70 @@ func collectPanicObligations(c *Ctx, li *LockInfo, fns map[*ssa.Function]bool, v
 								okK, why = true, "index < NumField() of the value this type was taken from"
 							}
 						}
+						if !okK {
+							// a lookup helper that is handed the type and its field count: func(typ reflect.Type, n int, …) with the
+							// index running below n, and every caller passing v.Type() and v.NumField() of one and the same v
+							tp, isTP := resolveVal(recv).(*ssa.Parameter)
+							var bound *ssa.Parameter
+							idx := callArgs(x)[1]
+							if phi, isPhi := unconvNum(idx).(*ssa.Phi); isPhi && isTP {
+								all := len(phi.Edges) > 0
+								for ei, e := range phi.Edges {
+									if k, isC := constInt(e); isC && k >= 0 {
+										continue
+									}
+									pred := phi.Block().Preds[ei]
+									iff, isIf := pred.Instrs[len(pred.Instrs)-1].(*ssa.If)
+									okE := false
+									if isIf {
+										if bo, isB := iff.Cond.(*ssa.BinOp); isB && bo.Op == token.LSS && sameVal(bo.X, e) && pred.Succs[0] == phi.Block() {
+											if q, isQ := resolveVal(bo.Y).(*ssa.Parameter); isQ && (bound == nil || bound == q) {
+												bound, okE = q, true
+											}
+										}
+									}
+									if !okE {
+										all = false
+									}
+								}
+								if !all {
+									bound = nil
+								}
+							}
+							if bound != nil && tp.Parent() == f && bound.Parent() == f {
+								ti, bi := -1, -1
+								for pi, q := range f.Params {
+									if q == tp {
+										ti = pi
+									}
+									if q == bound {
+										bi = pi
+									}
+								}
+								cs := li.Callers[f]
+								allOK := len(cs) > 0 && ti >= 0 && bi >= 0
+								for _, site := range cs {
+									call, okc := asCall(site.in)
+									if !okc {
+										allOK = false
+										break
+									}
+									a := callArgs(call)
+									if ti >= len(a) || bi >= len(a) {
+										allOK = false
+										break
+									}
+									tc, ok1 := resolveVal(a[ti]).(*ssa.Call)
+									nc, ok2 := resolveVal(a[bi]).(*ssa.Call)
+									if !ok1 || !ok2 || calleeName(tc) != "(reflect.Value).Type" || calleeName(nc) != "(reflect.Value).NumField" || !sameVal(callArgs(tc)[0], callArgs(nc)[0]) {
+										allOK = false
+									}
+								}
+								if allOK {
+									okK, why = true, "index below the count parameter, and every caller passes v.Type() and v.NumField() of the same value"
+								}
+							}
+						}
 					case "(reflect.Value).Addr":
 						for k := range fs {
 							if k == "CanAddr("+a+")=true" {
